@@ -8,6 +8,7 @@ SRC=/tmp/seed/out/$P/$N
 WT=/tmp/confirm-wt
 LOG=/tmp/confirm-$P-$N.log
 export CARGO_NET_OFFLINE=true
+[ -n "${SEED_RUSTFLAGS:-}" ] && export RUSTFLAGS="$SEED_RUSTFLAGS"
 [ -d $WT ] || git -C /repo worktree add -q --detach $WT HEAD
 cd $WT && git checkout -q --detach $(git -C /repo rev-parse HEAD) && git checkout -- . && git clean -fdq tests/
 : > $LOG
